@@ -126,7 +126,7 @@ func cfgS1(prop string, seed uint64, tier string) *RunCfg {
 	case "C02":
 		prof = "fail"
 	case "C03":
-		prof = []string{"valid", "valid", "mixed", "samerow"}[r.Intn(4)]
+		prof = []string{"valid", "valid", "mixed", "samerow", "index"}[r.Intn(5)]
 	case "C04":
 		prof = []string{"refs", "refs", "mixed-sw"}[r.Intn(3)]
 		if c.SchemaVariant == 1 && r.Intn(3) != 0 {
